@@ -418,9 +418,9 @@ impl FileSystemState {
             parents_created(ops@), //@O C18+C19.O-2e_recreate_all_creates_parent_directory_before_each_write
             // hence (lemma_recreate_all_correct, over the transcribed std::fs semantics): applied
             // to ANY directory, the plan succeeds and leaves exactly the files of the state
-            forall|dir0: Dir| (#[trigger] apply_all(dir0, ops@, ops@.len() as int)) is Some
-                && forall|p: Seq<int>| is_prefix(artifact_directory@, p) ==>
-                    #[trigger] (apply_all(dir0, ops@, ops@.len() as int)->Some_0.files)(p) == state.file_at(artifact_directory@, p), //@O C18+C19.O-2_from_scratch_plan_turns_any_directory_into_the_state
+            forall|dir0: Dir, h: spec_fn(usize) -> ArtifactHash| state.hashes_match(h) ==>
+                (#[trigger] apply_all(dir0, ops@, ops@.len() as int, h)) is Some
+                && files_match(apply_all(dir0, ops@, ops@.len() as int, h)->Some_0, state, artifact_directory@), //@O C18+C19.O-2_from_scratch_plan_turns_any_directory_into_the_state
 //@after "operations.push(FileSystemOperation::DeleteDirectory("
         proof {
             assert(at(operations@, 0) == OpV::DeleteDirectory(artifact_directory@));
@@ -540,10 +540,10 @@ impl FileSystemState {
             }
 //@atend
         proof {
-            assert forall|dir0: Dir| (#[trigger] apply_all(dir0, operations@, operations@.len() as int)) is Some
-                && forall|p: Seq<int>| is_prefix(artifact_directory@, p) ==>
-                    #[trigger] (apply_all(dir0, operations@, operations@.len() as int)->Some_0.files)(p) == state.file_at(artifact_directory@, p) by {
-                lemma_recreate_all_correct(dir0, operations@, state, artifact_directory@);
+            assert forall|dir0: Dir, h: spec_fn(usize) -> ArtifactHash| state.hashes_match(h) implies
+                (#[trigger] apply_all(dir0, operations@, operations@.len() as int, h)) is Some
+                && files_match(apply_all(dir0, operations@, operations@.len() as int, h)->Some_0, state, artifact_directory@) by {
+                lemma_recreate_all_correct(dir0, operations@, state, artifact_directory@, h);
             }
         }
 //@end
@@ -572,6 +572,13 @@ impl FileSystemState {
             // everything that vanished is deleted
             all_d(ops@, old, new, artifact_directory@), //@O C18.O-3e_diff_deletes_every_vanished_nested_file_and_directory
             roots_d(ops@, old, new, artifact_directory@), //@O C18.O-3f_diff_deletes_every_vanished_root_file
+            // hence (lemma_diff_correct, over the transcribed std::fs semantics): if the directory
+            // held exactly the files of the old state and applying the plan does not fail, it
+            // holds exactly the files of the new state
+            forall|dir0: Dir, h: spec_fn(usize) -> ArtifactHash|
+                files_match(dir0, old, artifact_directory@) && names_disjoint(old, new) && new.hashes_match(h)
+                && (#[trigger] apply_all(dir0, ops@, ops@.len() as int, h)) is Some
+                ==> files_match(apply_all(dir0, ops@, ops@.len() as int, h)->Some_0, new, artifact_directory@), //@O C18.O-3_diff_plan_turns_the_old_directory_into_the_new_state
 //@before "let mut new_server_object_entity_name_set"
         proof { axiom_tuple_key_model(); }
 //@loop 1
@@ -790,6 +797,15 @@ impl FileSystemState {
                     lemma_push_diff(o7, pushed, old, new, artifact_directory@);
                     lemma_push_mono_diff(o7, pushed, old, new, artifact_directory@);
                 }
+//@atend
+        proof {
+            assert forall|dir0: Dir, h: spec_fn(usize) -> ArtifactHash|
+                files_match(dir0, old, artifact_directory@) && names_disjoint(old, new) && new.hashes_match(h)
+                && (#[trigger] apply_all(dir0, operations@, operations@.len() as int, h)) is Some
+                implies files_match(apply_all(dir0, operations@, operations@.len() as int, h)->Some_0, new, artifact_directory@) by {
+                lemma_diff_correct(dir0, operations@, old, new, artifact_directory@, h);
+            }
+        }
 //@end
 
 }
@@ -1147,6 +1163,19 @@ pub proof fn lemma_plan_indices_from_diff(ops: Seq<FileSystemOperation>, o: &Fil
                 && all_w(ops@, &o, &st, artifact_directory@) && roots_w(ops@, &o, &st, artifact_directory@)
                 && all_d(ops@, &o, &st, artifact_directory@) && roots_d(ops@, &o, &st, artifact_directory@)
         }, //@O C18.O-3_known_directory_gets_the_diff_plan
+        // C18 in terms of the directory (transcribed std::fs semantics, content = hash of the
+        // artifact the index addresses): first compile of a session, whatever the directory held
+        *old(file_system_state) is None ==> forall|dir0: Dir|
+            (#[trigger] apply_all(dir0, ops@, ops@.len() as int, contents_of(paths_and_contents@))) is Some
+            && files_match(apply_all(dir0, ops@, ops@.len() as int, contents_of(paths_and_contents@))->Some_0,
+                   &(*final(file_system_state))->Some_0, artifact_directory@), //@O C18.O-6_first_compile_leaves_exactly_the_artifacts_whatever_the_directory_held
+        // later compiles, as long as nothing else edited the directory
+        *old(file_system_state) is Some ==> forall|dir0: Dir|
+            files_match(dir0, &(*old(file_system_state))->Some_0, artifact_directory@)
+            && names_disjoint(&(*old(file_system_state))->Some_0, &(*final(file_system_state))->Some_0)
+            && (#[trigger] apply_all(dir0, ops@, ops@.len() as int, contents_of(paths_and_contents@))) is Some
+            ==> files_match(apply_all(dir0, ops@, ops@.len() as int, contents_of(paths_and_contents@))->Some_0,
+                   &(*final(file_system_state))->Some_0, artifact_directory@), //@O C18.O-7_later_compile_leaves_exactly_the_artifacts_if_nothing_else_edited_the_directory
 //@before "*file_system_state ="
     proof {
         let n = paths_and_contents@.len() as int;
@@ -1156,6 +1185,7 @@ pub proof fn lemma_plan_indices_from_diff(ops: Seq<FileSystemOperation>, o: &Fil
             let o = (*file_system_state)->Some_0;
             lemma_plan_indices_from_diff(operations@, &o, &new_file_system_state, artifact_directory@, n);
         }
+        lemma_reflects_hashes(&new_file_system_state, paths_and_contents@);
     }
 //@end
 
@@ -1165,18 +1195,21 @@ pub proof fn lemma_plan_indices_from_diff(ops: Seq<FileSystemOperation>, o: &Fil
 // exists, create_dir_all, write, remove_file) and lemmas showing that a plan with the
 // properties proved above, applied op by op, turns the directory into exactly the state.
 // The semantics is a SPECIFICATION (trusted transcription); the lemmas are about contracts.
+// A file's content is identified by its hash (content_hash: equal hashes are taken to mean
+// equal contents - the same assumption the compiler's own skip-if-unchanged logic makes).
 // =====================================================================================
 pub struct Dir {
-    /// content index of the file at a path, if there is one
-    pub files: spec_fn(Seq<int>) -> Option<usize>,
+    /// content (hash) of the file at a path, if there is one
+    pub files: spec_fn(Seq<int>) -> Option<ArtifactHash>,
     /// directories that exist
     pub dirs: spec_fn(Seq<int>) -> bool,
 }
 pub open spec fn is_prefix(a: Seq<int>, b: Seq<int>) -> bool {
     a.len() <= b.len() && b.subrange(0, a.len() as int) == a
 }
-/// effect of one operation; None = the std::fs call fails
-pub open spec fn apply_op(dir: Dir, x: OpV) -> Option<Dir> {
+/// effect of one operation; None = the std::fs call fails. `h` gives the content (hash)
+/// of the artifact a WriteFile index addresses: |i| content_hash(artifacts[i].file_content)
+pub open spec fn apply_op(dir: Dir, x: OpV, h: spec_fn(usize) -> ArtifactHash) -> Option<Dir> {
     match x {
         OpV::DeleteDirectory(q) => Some(Dir {
             files: |p: Seq<int>| if is_prefix(q, p) { None } else { (dir.files)(p) },
@@ -1188,7 +1221,7 @@ pub open spec fn apply_op(dir: Dir, x: OpV) -> Option<Dir> {
         }),
         OpV::WriteFile(p0, idx) =>
             if p0.len() > 0 && (dir.dirs)(p0.drop_last()) {
-                Some(Dir { files: |p: Seq<int>| if p == p0 { Some(idx) } else { (dir.files)(p) }, dirs: dir.dirs })
+                Some(Dir { files: |p: Seq<int>| if p == p0 { Some(h(idx)) } else { (dir.files)(p) }, dirs: dir.dirs })
             } else { None },
         OpV::DeleteFile(p0) =>
             if (dir.files)(p0) is Some {
@@ -1197,27 +1230,44 @@ pub open spec fn apply_op(dir: Dir, x: OpV) -> Option<Dir> {
     }
 }
 /// the first k operations applied in order
-pub open spec fn apply_all(dir: Dir, ops: Seq<FileSystemOperation>, k: int) -> Option<Dir>
+pub open spec fn apply_all(dir: Dir, ops: Seq<FileSystemOperation>, k: int, h: spec_fn(usize) -> ArtifactHash) -> Option<Dir>
     decreases k
 {
     if k <= 0 { Some(dir) } else {
-        match apply_all(dir, ops, k - 1) {
-            Some(d1) => apply_op(d1, at(ops, k - 1)),
+        match apply_all(dir, ops, k - 1, h) {
+            Some(d1) => apply_op(d1, at(ops, k - 1), h),
             None => None,
         }
     }
 }
 impl FileSystemState {
     /// the directory content this state stands for, below artifact directory `d`
-    pub open spec fn file_at(&self, d: Seq<int>, p: Seq<int>) -> Option<usize> {
+    pub open spec fn file_at(&self, d: Seq<int>, p: Seq<int>) -> Option<ArtifactHash> {
         if p.len() == d.len() + 1 && is_prefix(d, p) && self.has_root(p.last() as u64) && 0 <= p.last() <= u64::MAX {
-            Some(self.root_idx(p.last() as u64))
+            Some(self.root_hash(p.last() as u64))
         } else if p.len() == d.len() + 3 && is_prefix(d, p)
-            && 0 <= p[d.len() as int] <= u64::MAX && 0 <= p[(d.len() + 1) as int] <= u64::MAX && 0 <= p[(d.len() + 2) as int] <= u64::MAX
-            && self.has_nested(p[d.len() as int] as u64, p[(d.len() + 1) as int] as u64, p[(d.len() + 2) as int] as u64) {
-            Some(self.nested_idx(p[d.len() as int] as u64, p[(d.len() + 1) as int] as u64, p[(d.len() + 2) as int] as u64))
+            && 0 <= p[d.len() as int] <= u64::MAX && 0 <= p[d.len() as int + 1] <= u64::MAX && 0 <= p[d.len() as int + 2] <= u64::MAX
+            && self.has_nested(p[d.len() as int] as u64, p[d.len() as int + 1] as u64, p[d.len() as int + 2] as u64) {
+            Some(self.nested_hash(p[d.len() as int] as u64, p[d.len() as int + 1] as u64, p[d.len() as int + 2] as u64))
         } else { None }
     }
+    /// the hash the state records for a file is the hash of the artifact its index addresses
+    pub open spec fn hashes_match(&self, h: spec_fn(usize) -> ArtifactHash) -> bool {
+        &&& forall|f: u64| #[trigger] self.has_root(f) ==> h(self.root_idx(f)) == self.root_hash(f)
+        &&& forall|e: u64, s: u64, f: u64| #[trigger] self.has_nested(e, s, f) ==> h(self.nested_idx(e, s, f)) == self.nested_hash(e, s, f)
+    }
+}
+/// the artifact list's own content function
+pub open spec fn contents_of(arts: Seq<ArtifactPathAndContent>) -> spec_fn(usize) -> ArtifactHash {
+    |i: usize| content_hash(arts[i as int].file_content)
+}
+/// a state built from an artifact list records the hashes of that list
+pub proof fn lemma_reflects_hashes(st: &FileSystemState, arts: Seq<ArtifactPathAndContent>)
+    requires st.reflects(arts, arts.len() as int)
+    ensures st.hashes_match(contents_of(arts))
+{
+    assert forall|f: u64| #[trigger] st.has_root(f) implies contents_of(arts)(st.root_idx(f)) == st.root_hash(f) by {}
+    assert forall|e: u64, s: u64, f: u64| #[trigger] st.has_nested(e, s, f) implies contents_of(arts)(st.nested_idx(e, s, f)) == st.nested_hash(e, s, f) by {}
 }
 
 pub proof fn lemma_paths(d: Seq<int>, e: u64, s: u64, f: u64)
@@ -1225,8 +1275,8 @@ pub proof fn lemma_paths(d: Seq<int>, e: u64, s: u64, f: u64)
         root_path(d, f).len() == d.len() + 1, is_prefix(d, root_path(d, f)), root_path(d, f).last() == f as int,
         root_path(d, f).drop_last() == d,
         nested_path(d, e, s, f).len() == d.len() + 3, is_prefix(d, nested_path(d, e, s, f)),
-        nested_path(d, e, s, f)[d.len() as int] == e as int, nested_path(d, e, s, f)[(d.len() + 1) as int] == s as int,
-        nested_path(d, e, s, f)[(d.len() + 2) as int] == f as int,
+        nested_path(d, e, s, f)[d.len() as int] == e as int, nested_path(d, e, s, f)[d.len() as int + 1] == s as int,
+        nested_path(d, e, s, f)[d.len() as int + 2] == f as int,
         nested_path(d, e, s, f).drop_last() == sel_dir(d, e, s),
         is_prefix(d, sel_dir(d, e, s)), is_prefix(d, d),
 {
@@ -1237,16 +1287,77 @@ pub proof fn lemma_paths(d: Seq<int>, e: u64, s: u64, f: u64)
     assert(sel_dir(d, e, s).subrange(0, d.len() as int) =~= d);
     assert(d.subrange(0, d.len() as int) =~= d);
 }
+/// what the state says about its own paths, and that it says nothing about other paths
+pub proof fn lemma_file_at(st: &FileSystemState, d: Seq<int>, e: u64, s: u64, f: u64)
+    ensures
+        st.file_at(d, root_path(d, f)) == (if st.has_root(f) { Some(st.root_hash(f)) } else { None::<ArtifactHash> }),
+        st.file_at(d, nested_path(d, e, s, f)) == (if st.has_nested(e, s, f) { Some(st.nested_hash(e, s, f)) } else { None::<ArtifactHash> }),
+{
+    lemma_paths(d, e, s, f);
+}
+pub proof fn lemma_file_at_inv(st: &FileSystemState, d: Seq<int>, p: Seq<int>)
+    requires st.file_at(d, p) is Some
+    ensures
+        (p.len() == d.len() + 1 && 0 <= p.last() <= u64::MAX && st.has_root(p.last() as u64) && p == root_path(d, p.last() as u64))
+        || (p.len() == d.len() + 3
+            && 0 <= p[d.len() as int] <= u64::MAX && 0 <= p[d.len() as int + 1] <= u64::MAX && 0 <= p[d.len() as int + 2] <= u64::MAX
+            && st.has_nested(p[d.len() as int] as u64, p[d.len() as int + 1] as u64, p[d.len() as int + 2] as u64)
+            && p == nested_path(d, p[d.len() as int] as u64, p[d.len() as int + 1] as u64, p[d.len() as int + 2] as u64)),
+{
+    if p.len() == d.len() + 1 {
+        assert(root_path(d, p.last() as u64) =~= p);
+    } else {
+        assert(nested_path(d, p[d.len() as int] as u64, p[d.len() as int + 1] as u64, p[d.len() as int + 2] as u64) =~= p);
+    }
+}
+/// which planned directories lie above which planned files
+pub proof fn lemma_prefixes(d: Seq<int>, e1: u64, s1: u64, e: u64, s: u64, f: u64)
+    ensures
+        is_prefix(ent_dir(d, e1), root_path(d, f)) ==> e1 == f,
+        !is_prefix(sel_dir(d, e1, s1), root_path(d, f)),
+        is_prefix(ent_dir(d, e1), nested_path(d, e, s, f)) <==> e1 == e,
+        is_prefix(sel_dir(d, e1, s1), nested_path(d, e, s, f)) <==> (e1 == e && s1 == s),
+        nested_path(d, e1, s1, f) == nested_path(d, e, s, f) ==> e1 == e && s1 == s,
+        root_path(d, e1) == root_path(d, f) ==> e1 == f,
+        root_path(d, e1) != nested_path(d, e, s, f),
+{
+    let dl = d.len() as int;
+    if is_prefix(ent_dir(d, e1), root_path(d, f)) {
+        assert(root_path(d, f).subrange(0, dl + 1)[dl] == ent_dir(d, e1)[dl]);
+    }
+    if is_prefix(ent_dir(d, e1), nested_path(d, e, s, f)) {
+        assert(nested_path(d, e, s, f).subrange(0, dl + 1)[dl] == ent_dir(d, e1)[dl]);
+    }
+    if e1 == e {
+        assert(nested_path(d, e, s, f).subrange(0, dl + 1) =~= ent_dir(d, e1));
+    }
+    if is_prefix(sel_dir(d, e1, s1), nested_path(d, e, s, f)) {
+        assert(nested_path(d, e, s, f).subrange(0, dl + 2)[dl] == sel_dir(d, e1, s1)[dl]);
+        assert(nested_path(d, e, s, f).subrange(0, dl + 2)[dl + 1] == sel_dir(d, e1, s1)[dl + 1]);
+    }
+    if e1 == e && s1 == s {
+        assert(nested_path(d, e, s, f).subrange(0, dl + 2) =~= sel_dir(d, e1, s1));
+    }
+    if nested_path(d, e1, s1, f) == nested_path(d, e, s, f) {
+        assert(nested_path(d, e1, s1, f)[dl] == nested_path(d, e, s, f)[dl]);
+        assert(nested_path(d, e1, s1, f)[dl + 1] == nested_path(d, e, s, f)[dl + 1]);
+    }
+    if root_path(d, e1) == root_path(d, f) {
+        assert(root_path(d, e1)[dl] == root_path(d, f)[dl]);
+    }
+    assert(root_path(d, e1).len() != nested_path(d, e, s, f).len());
+}
 
+// ---------------- the from-scratch plan (recreate_all) ----------------
 /// some WriteFile to path p among operations 1..k
 pub open spec fn written(ops: Seq<FileSystemOperation>, k: int, p: Seq<int>) -> bool {
     exists|i: int| 0 < i < k && i < ops.len() && (#[trigger] at(ops, i)) is WriteFile && at(ops, i)->WriteFile_0 == p
 }
 /// a from-scratch plan writes to a path exactly the content the state has there
-pub proof fn lemma_write_determines(ops: Seq<FileSystemOperation>, st: &FileSystemState, d: Seq<int>, i: int)
-    requires writes_sound(ops, st, d, true), 0 <= i < ops.len(), at(ops, i) is WriteFile,
+pub proof fn lemma_write_determines(ops: Seq<FileSystemOperation>, st: &FileSystemState, d: Seq<int>, h: spec_fn(usize) -> ArtifactHash, i: int)
+    requires writes_sound(ops, st, d, true), st.hashes_match(h), 0 <= i < ops.len(), at(ops, i) is WriteFile,
     ensures
-        st.file_at(d, at(ops, i)->WriteFile_0) == Some(at(ops, i)->WriteFile_1),
+        st.file_at(d, at(ops, i)->WriteFile_0) == Some(h(at(ops, i)->WriteFile_1)),
         at(ops, i)->WriteFile_0.len() > 0,
 {
     if exists|f: u64| st.has_root(f) && at(ops, i) == OpV::WriteFile(root_path(d, f), st.root_idx(f)) {
@@ -1261,35 +1372,35 @@ pub proof fn lemma_write_determines(ops: Seq<FileSystemOperation>, st: &FileSyst
 pub open spec fn scratch_inv(dk: Dir, ops: Seq<FileSystemOperation>, k: int, st: &FileSystemState, d: Seq<int>) -> bool {
     // below d there is exactly what the plan has written so far, with the state's content
     &&& forall|p: Seq<int>| is_prefix(d, p) ==>
-            #[trigger] (dk.files)(p) == (if written(ops, k, p) { st.file_at(d, p) } else { None::<usize> })
+            #[trigger] (dk.files)(p) == (if written(ops, k, p) { st.file_at(d, p) } else { None::<ArtifactHash> })
     // every directory the plan created exists
     &&& forall|j: int| 0 < j < k && (#[trigger] at(ops, j)) is CreateDirectory ==> (dk.dirs)(at(ops, j)->CreateDirectory_0)
 }
-pub proof fn lemma_scratch(dir0: Dir, ops: Seq<FileSystemOperation>, st: &FileSystemState, d: Seq<int>, k: int)
+pub proof fn lemma_scratch(dir0: Dir, ops: Seq<FileSystemOperation>, st: &FileSystemState, d: Seq<int>, h: spec_fn(usize) -> ArtifactHash, k: int)
     requires
-        wipes_first(ops, d), writes_sound(ops, st, d, true), parents_created(ops),
+        wipes_first(ops, d), writes_sound(ops, st, d, true), parents_created(ops), st.hashes_match(h),
         1 <= k <= ops.len(),
     ensures
-        apply_all(dir0, ops, k) is Some,
-        scratch_inv(apply_all(dir0, ops, k)->Some_0, ops, k, st, d),
+        apply_all(dir0, ops, k, h) is Some,
+        scratch_inv(apply_all(dir0, ops, k, h)->Some_0, ops, k, st, d),
     decreases k
 {
     if k == 1 {
-        assert(apply_all(dir0, ops, 0) == Some(dir0));
-        let d1 = apply_all(dir0, ops, 1)->Some_0;
-        assert forall|p: Seq<int>| is_prefix(d, p) implies #[trigger] (d1.files)(p) == (if written(ops, 1, p) { st.file_at(d, p) } else { None::<usize> }) by {
+        assert(apply_all(dir0, ops, 0, h) == Some(dir0));
+        let d1 = apply_all(dir0, ops, 1, h)->Some_0;
+        assert forall|p: Seq<int>| is_prefix(d, p) implies #[trigger] (d1.files)(p) == (if written(ops, 1, p) { st.file_at(d, p) } else { None::<ArtifactHash> }) by {
             assert(!written(ops, 1, p));
         }
     } else {
-        lemma_scratch(dir0, ops, st, d, k - 1);
-        let dk = apply_all(dir0, ops, k - 1)->Some_0;
+        lemma_scratch(dir0, ops, st, d, h, k - 1);
+        let dk = apply_all(dir0, ops, k - 1, h)->Some_0;
         let x = at(ops, k - 1);
         assert(x is WriteFile || x is CreateDirectory);
         if x is CreateDirectory {
             let q = x->CreateDirectory_0;
-            let dn = apply_op(dk, x)->Some_0;
+            let dn = apply_op(dk, x, h)->Some_0;
             assert(is_prefix(q, q)) by { assert(q.subrange(0, q.len() as int) =~= q); }
-            assert forall|p: Seq<int>| is_prefix(d, p) implies #[trigger] (dn.files)(p) == (if written(ops, k, p) { st.file_at(d, p) } else { None::<usize> }) by {
+            assert forall|p: Seq<int>| is_prefix(d, p) implies #[trigger] (dn.files)(p) == (if written(ops, k, p) { st.file_at(d, p) } else { None::<ArtifactHash> }) by {
                 assert(written(ops, k, p) == written(ops, k - 1, p)) by {
                     if written(ops, k, p) {
                         let i = choose|i: int| 0 < i < k && i < ops.len() && (#[trigger] at(ops, i)) is WriteFile && at(ops, i)->WriteFile_0 == p;
@@ -1299,12 +1410,12 @@ pub proof fn lemma_scratch(dir0: Dir, ops: Seq<FileSystemOperation>, st: &FileSy
             }
         } else {
             let p0 = x->WriteFile_0; let idx = x->WriteFile_1;
-            lemma_write_determines(ops, st, d, k - 1);
+            lemma_write_determines(ops, st, d, h, k - 1);
             // the parent directory was created earlier
             let j = choose|j: int| 0 < j < k - 1 && j < ops.len() && #[trigger] at(ops, j) == OpV::CreateDirectory(p0.drop_last());
             assert((dk.dirs)(p0.drop_last()));
-            let dn = apply_op(dk, x)->Some_0;
-            assert forall|p: Seq<int>| is_prefix(d, p) implies #[trigger] (dn.files)(p) == (if written(ops, k, p) { st.file_at(d, p) } else { None::<usize> }) by {
+            let dn = apply_op(dk, x, h)->Some_0;
+            assert forall|p: Seq<int>| is_prefix(d, p) implies #[trigger] (dn.files)(p) == (if written(ops, k, p) { st.file_at(d, p) } else { None::<ArtifactHash> }) by {
                 if p == p0 {
                     assert(written(ops, k, p));
                 } else {
@@ -1321,17 +1432,18 @@ pub proof fn lemma_scratch(dir0: Dir, ops: Seq<FileSystemOperation>, st: &FileSy
 }
 /// C18, first compile / C19, repair: the from-scratch plan applied to ANY directory succeeds
 /// and leaves, below the artifact directory, exactly the files of the state
-pub proof fn lemma_recreate_all_correct(dir0: Dir, ops: Seq<FileSystemOperation>, st: &FileSystemState, d: Seq<int>)
+pub proof fn lemma_recreate_all_correct(dir0: Dir, ops: Seq<FileSystemOperation>, st: &FileSystemState, d: Seq<int>, h: spec_fn(usize) -> ArtifactHash)
     requires
         wipes_first(ops, d), writes_sound(ops, st, d, true), parents_created(ops),
         roots_written(ops, d, st.root_files@), ents_written(ops, d, st.nested_files@),
+        st.hashes_match(h),
     ensures
-        apply_all(dir0, ops, ops.len() as int) is Some,
-        forall|p: Seq<int>| is_prefix(d, p) ==> #[trigger] (apply_all(dir0, ops, ops.len() as int)->Some_0.files)(p) == st.file_at(d, p),
+        apply_all(dir0, ops, ops.len() as int, h) is Some,
+        forall|p: Seq<int>| is_prefix(d, p) ==> #[trigger] (apply_all(dir0, ops, ops.len() as int, h)->Some_0.files)(p) == st.file_at(d, p),
 {
     let n = ops.len() as int;
-    lemma_scratch(dir0, ops, st, d, n);
-    let dn = apply_all(dir0, ops, n)->Some_0;
+    lemma_scratch(dir0, ops, st, d, h, n);
+    let dn = apply_all(dir0, ops, n, h)->Some_0;
     assert forall|p: Seq<int>| is_prefix(d, p) implies #[trigger] (dn.files)(p) == st.file_at(d, p) by {
         if st.file_at(d, p) is Some && !written(ops, n, p) {
             // completeness: the plan writes every file of the state
@@ -1344,7 +1456,7 @@ pub proof fn lemma_recreate_all_correct(dir0: Dir, ops: Seq<FileSystemOperation>
                 assert(i != 0);
                 assert(written(ops, n, p));
             } else {
-                let e = p[d.len() as int] as u64; let s = p[(d.len() + 1) as int] as u64; let f = p[(d.len() + 2) as int] as u64;
+                let e = p[d.len() as int] as u64; let s = p[d.len() as int + 1] as u64; let f = p[d.len() as int + 2] as u64;
                 lemma_paths(d, e, s, f);
                 assert(nested_path(d, e, s, f) =~= p);
                 assert(st.nested_files@.contains_key(e));
@@ -1354,6 +1466,241 @@ pub proof fn lemma_recreate_all_correct(dir0: Dir, ops: Seq<FileSystemOperation>
                 let i = choose|i: int| 0 <= i < ops.len() && #[trigger] at(ops, i) == OpV::WriteFile(nested_path(d, e, s, f), st.nested_files@[e]@[s]@[f].0.idx);
                 assert(i != 0);
                 assert(written(ops, n, p));
+            }
+        }
+    }
+}
+
+// ---------------- the incremental plan (diff) ----------------
+pub open spec fn wr_hit(x: OpV, p: Seq<int>) -> bool { x is WriteFile && x->WriteFile_0 == p }
+pub open spec fn del_hit(x: OpV, p: Seq<int>) -> bool {
+    (x is DeleteFile && x->DeleteFile_0 == p) || (x is DeleteDirectory && is_prefix(x->DeleteDirectory_0, p))
+}
+/// some WriteFile to p / some deletion covering p among the first k operations
+pub open spec fn written_d(ops: Seq<FileSystemOperation>, k: int, p: Seq<int>) -> bool {
+    exists|i: int| 0 <= i < k && i < ops.len() && wr_hit(#[trigger] at(ops, i), p)
+}
+pub open spec fn deleted_d(ops: Seq<FileSystemOperation>, k: int, p: Seq<int>) -> bool {
+    exists|i: int| 0 <= i < k && i < ops.len() && del_hit(#[trigger] at(ops, i), p)
+}
+pub proof fn lemma_wd_step(ops: Seq<FileSystemOperation>, k: int, p: Seq<int>)
+    requires 1 <= k <= ops.len()
+    ensures
+        written_d(ops, k, p) == (written_d(ops, k - 1, p) || wr_hit(at(ops, k - 1), p)),
+        deleted_d(ops, k, p) == (deleted_d(ops, k - 1, p) || del_hit(at(ops, k - 1), p)),
+{
+    if written_d(ops, k, p) {
+        let i = choose|i: int| 0 <= i < k && i < ops.len() && wr_hit(#[trigger] at(ops, i), p);
+        if i != k - 1 { assert(0 <= i < k - 1 && wr_hit(at(ops, i), p)); }
+    }
+    if written_d(ops, k - 1, p) {
+        let i = choose|i: int| 0 <= i < k - 1 && i < ops.len() && wr_hit(#[trigger] at(ops, i), p);
+        assert(0 <= i < k && wr_hit(at(ops, i), p));
+    }
+    if wr_hit(at(ops, k - 1), p) { assert(0 <= k - 1 < k && wr_hit(at(ops, k - 1), p)); }
+    if deleted_d(ops, k, p) {
+        let i = choose|i: int| 0 <= i < k && i < ops.len() && del_hit(#[trigger] at(ops, i), p);
+        if i != k - 1 { assert(0 <= i < k - 1 && del_hit(at(ops, i), p)); }
+    }
+    if deleted_d(ops, k - 1, p) {
+        let i = choose|i: int| 0 <= i < k - 1 && i < ops.len() && del_hit(#[trigger] at(ops, i), p);
+        assert(0 <= i < k && del_hit(at(ops, i), p));
+    }
+    if del_hit(at(ops, k - 1), p) { assert(0 <= k - 1 < k && del_hit(at(ops, k - 1), p)); }
+}
+/// the directory holds exactly the files of the state below d ("nothing else edited it")
+pub open spec fn files_match(dir: Dir, st: &FileSystemState, d: Seq<int>) -> bool {
+    forall|p: Seq<int>| is_prefix(d, p) ==> #[trigger] (dir.files)(p) == st.file_at(d, p)
+}
+/// the model has one name space per directory: a root file of the new state is not named
+/// like an entity directory of the old one (entity names are GraphQL names, root files carry
+/// an extension)
+pub open spec fn names_disjoint(o: &FileSystemState, n: &FileSystemState) -> bool {
+    forall|f: u64| #[trigger] n.has_root(f) ==> !o.has_entity(f)
+}
+/// a justified write goes to a path of the new state and carries its content
+pub proof fn lemma_diff_write(x: OpV, o: &FileSystemState, n: &FileSystemState, d: Seq<int>, h: spec_fn(usize) -> ArtifactHash)
+    requires op_justified(x, o, n, d), x is WriteFile, n.hashes_match(h),
+    ensures
+        n.file_at(d, x->WriteFile_0) == Some(h(x->WriteFile_1)),
+        (exists|f: u64| n.has_root(f) && x->WriteFile_0 == root_path(d, f))
+            || (exists|e: u64, s: u64, f: u64| n.has_nested(e, s, f) && x->WriteFile_0 == nested_path(d, e, s, f)),
+{
+    if exists|f: u64| n.has_root(f) && root_needs_write(o, n, f) && x == OpV::WriteFile(root_path(d, f), n.root_idx(f)) {
+        let f = choose|f: u64| n.has_root(f) && root_needs_write(o, n, f) && x == OpV::WriteFile(root_path(d, f), n.root_idx(f));
+        lemma_file_at(n, d, 0, 0, f);
+        assert(n.has_root(f) && x->WriteFile_0 == root_path(d, f));
+    } else {
+        let (e, s, f) = choose|e: u64, s: u64, f: u64| n.has_nested(e, s, f) && nested_needs_write(o, n, e, s, f) && x == OpV::WriteFile(nested_path(d, e, s, f), n.nested_idx(e, s, f));
+        lemma_file_at(n, d, e, s, f);
+        assert(n.has_nested(e, s, f) && x->WriteFile_0 == nested_path(d, e, s, f));
+    }
+}
+/// a justified deletion never covers a path of the new state
+pub proof fn lemma_diff_delete(x: OpV, p: Seq<int>, o: &FileSystemState, n: &FileSystemState, d: Seq<int>)
+    requires op_justified(x, o, n, d), del_hit(x, p), names_disjoint(o, n),
+    ensures n.file_at(d, p) is None,
+{
+    if n.file_at(d, p) is Some {
+        lemma_file_at_inv(n, d, p);
+        let dl = d.len() as int;
+        if p.len() == d.len() + 1 {
+            let f = p.last() as u64;
+            if x is DeleteFile {
+                if exists|f1: u64| o.has_root(f1) && !n.has_root(f1) && x == OpV::DeleteFile(root_path(d, f1)) {
+                    let f1 = choose|f1: u64| o.has_root(f1) && !n.has_root(f1) && x == OpV::DeleteFile(root_path(d, f1));
+                    lemma_prefixes(d, f1, 0, 0, 0, f);
+                } else {
+                    let (e1, s1, f1) = choose|e1: u64, s1: u64, f1: u64| o.has_nested(e1, s1, f1) && n.has_sel(e1, s1) && !n.has_nested(e1, s1, f1) && x == OpV::DeleteFile(nested_path(d, e1, s1, f1));
+                    lemma_prefixes(d, f, 0, e1, s1, f1);
+                }
+            } else {
+                if exists|e1: u64| o.has_entity(e1) && !n.has_entity(e1) && x == OpV::DeleteDirectory(ent_dir(d, e1)) {
+                    let e1 = choose|e1: u64| o.has_entity(e1) && !n.has_entity(e1) && x == OpV::DeleteDirectory(ent_dir(d, e1));
+                    lemma_prefixes(d, e1, 0, 0, 0, f);
+                    assert(n.has_root(f) && o.has_entity(f));
+                } else {
+                    let (e1, s1) = choose|e1: u64, s1: u64| o.has_sel(e1, s1) && n.has_entity(e1) && !n.has_sel(e1, s1) && x == OpV::DeleteDirectory(sel_dir(d, e1, s1));
+                    lemma_prefixes(d, e1, s1, 0, 0, f);
+                }
+            }
+        } else {
+            let e = p[dl] as u64; let s = p[dl + 1] as u64; let f = p[dl + 2] as u64;
+            if x is DeleteFile {
+                if exists|f1: u64| o.has_root(f1) && !n.has_root(f1) && x == OpV::DeleteFile(root_path(d, f1)) {
+                    let f1 = choose|f1: u64| o.has_root(f1) && !n.has_root(f1) && x == OpV::DeleteFile(root_path(d, f1));
+                    lemma_prefixes(d, f1, 0, e, s, f);
+                } else {
+                    let (e1, s1, f1) = choose|e1: u64, s1: u64, f1: u64| o.has_nested(e1, s1, f1) && n.has_sel(e1, s1) && !n.has_nested(e1, s1, f1) && x == OpV::DeleteFile(nested_path(d, e1, s1, f1));
+                    lemma_paths(d, e1, s1, f1);
+                    lemma_paths(d, e, s, f);
+                    assert(e1 == e && s1 == s && f1 == f);
+                }
+            } else {
+                if exists|e1: u64| o.has_entity(e1) && !n.has_entity(e1) && x == OpV::DeleteDirectory(ent_dir(d, e1)) {
+                    let e1 = choose|e1: u64| o.has_entity(e1) && !n.has_entity(e1) && x == OpV::DeleteDirectory(ent_dir(d, e1));
+                    lemma_prefixes(d, e1, 0, e, s, f);
+                } else {
+                    let (e1, s1) = choose|e1: u64, s1: u64| o.has_sel(e1, s1) && n.has_entity(e1) && !n.has_sel(e1, s1) && x == OpV::DeleteDirectory(sel_dir(d, e1, s1));
+                    lemma_prefixes(d, e1, s1, e, s, f);
+                }
+            }
+        }
+    }
+}
+/// content of the directory after the first k operations of a diff plan that did not fail
+pub open spec fn diff_inv(dk: Dir, ops: Seq<FileSystemOperation>, k: int, o: &FileSystemState, n: &FileSystemState, d: Seq<int>) -> bool {
+    forall|p: Seq<int>| is_prefix(d, p) ==> #[trigger] (dk.files)(p) ==
+        (if written_d(ops, k, p) { n.file_at(d, p) } else if deleted_d(ops, k, p) { None::<ArtifactHash> } else { o.file_at(d, p) })
+}
+pub proof fn lemma_diff_fold(dir0: Dir, ops: Seq<FileSystemOperation>, o: &FileSystemState, n: &FileSystemState, d: Seq<int>, h: spec_fn(usize) -> ArtifactHash, k: int)
+    requires
+        all_justified(ops, o, n, d), names_disjoint(o, n), n.hashes_match(h),
+        files_match(dir0, o, d),
+        0 <= k <= ops.len(),
+        apply_all(dir0, ops, k, h) is Some,
+    ensures
+        diff_inv(apply_all(dir0, ops, k, h)->Some_0, ops, k, o, n, d),
+    decreases k
+{
+    if k == 0 {
+        assert forall|p: Seq<int>| is_prefix(d, p) implies #[trigger] (dir0.files)(p) ==
+            (if written_d(ops, 0, p) { n.file_at(d, p) } else if deleted_d(ops, 0, p) { None::<ArtifactHash> } else { o.file_at(d, p) }) by {
+            assert(!written_d(ops, 0, p) && !deleted_d(ops, 0, p));
+        }
+    } else {
+        assert(apply_all(dir0, ops, k - 1, h) is Some);
+        lemma_diff_fold(dir0, ops, o, n, d, h, k - 1);
+        let dk = apply_all(dir0, ops, k - 1, h)->Some_0;
+        let x = at(ops, k - 1);
+        assert(op_justified(x, o, n, d));
+        let dn = apply_op(dk, x, h)->Some_0;
+        assert(apply_all(dir0, ops, k, h) == apply_op(dk, x, h));
+        if x is WriteFile { lemma_diff_write(x, o, n, d, h); }
+        assert forall|p: Seq<int>| is_prefix(d, p) implies #[trigger] (dn.files)(p) ==
+            (if written_d(ops, k, p) { n.file_at(d, p) } else if deleted_d(ops, k, p) { None::<ArtifactHash> } else { o.file_at(d, p) }) by {
+            lemma_wd_step(ops, k, p);
+            assert((dk.files)(p) == (if written_d(ops, k - 1, p) { n.file_at(d, p) } else if deleted_d(ops, k - 1, p) { None::<ArtifactHash> } else { o.file_at(d, p) }));
+            if del_hit(x, p) {
+                // whatever was there is gone, and the new state has nothing there either
+                lemma_diff_delete(x, p, o, n, d);
+            }
+        }
+    }
+}
+/// C18, later compiles: if the directory held exactly the files of the remembered state and
+/// the diff plan was applied without an error, it holds exactly the files of the new state
+pub proof fn lemma_diff_correct(dir0: Dir, ops: Seq<FileSystemOperation>, o: &FileSystemState, n: &FileSystemState, d: Seq<int>, h: spec_fn(usize) -> ArtifactHash)
+    requires
+        all_justified(ops, o, n, d),
+        all_w(ops, o, n, d), roots_w(ops, o, n, d), all_d(ops, o, n, d), roots_d(ops, o, n, d),
+        names_disjoint(o, n), n.hashes_match(h),
+        files_match(dir0, o, d),
+        apply_all(dir0, ops, ops.len() as int, h) is Some,
+    ensures
+        files_match(apply_all(dir0, ops, ops.len() as int, h)->Some_0, n, d),
+{
+    let len = ops.len() as int;
+    lemma_diff_fold(dir0, ops, o, n, d, h, len);
+    let dn = apply_all(dir0, ops, len, h)->Some_0;
+    let dl = d.len() as int;
+    assert forall|p: Seq<int>| is_prefix(d, p) implies #[trigger] (dn.files)(p) == n.file_at(d, p) by {
+        if !written_d(ops, len, p) {
+            if deleted_d(ops, len, p) {
+                let i = choose|i: int| 0 <= i < len && i < ops.len() && del_hit(#[trigger] at(ops, i), p);
+                assert(op_justified(at(ops, i), o, n, d));
+                lemma_diff_delete(at(ops, i), p, o, n, d);
+            } else if n.file_at(d, p) is Some {
+                // unchanged file: not rewritten, so the old state has it with the same content
+                lemma_file_at_inv(n, d, p);
+                if p.len() == d.len() + 1 {
+                    let f = p.last() as u64;
+                    lemma_file_at(n, d, 0, 0, f); lemma_file_at(o, d, 0, 0, f);
+                    assert(root_w(ops, o, n, d, f));
+                    if root_needs_write(o, n, f) {
+                        let i = choose|i: int| 0 <= i < ops.len() && #[trigger] at(ops, i) == OpV::WriteFile(root_path(d, f), n.root_idx(f));
+                        assert(wr_hit(at(ops, i), p));
+                    }
+                } else {
+                    let e = p[dl] as u64; let s = p[dl + 1] as u64; let f = p[dl + 2] as u64;
+                    lemma_file_at(n, d, e, s, f); lemma_file_at(o, d, e, s, f);
+                    assert(n.has_entity(e) && n.has_sel(e, s));
+                    assert(ent_w(ops, o, n, d, e)); assert(sel_w(ops, o, n, d, e, s)); assert(file_w(ops, o, n, d, e, s, f));
+                    if nested_needs_write(o, n, e, s, f) {
+                        let i = choose|i: int| 0 <= i < ops.len() && #[trigger] at(ops, i) == OpV::WriteFile(nested_path(d, e, s, f), n.nested_idx(e, s, f));
+                        assert(wr_hit(at(ops, i), p));
+                    }
+                }
+            } else if o.file_at(d, p) is Some {
+                // vanished file: the plan deletes it, or a directory above it
+                lemma_file_at_inv(o, d, p);
+                if p.len() == d.len() + 1 {
+                    let f = p.last() as u64;
+                    lemma_file_at(n, d, 0, 0, f);
+                    assert(root_d(ops, o, n, d, f));
+                    let i = choose|i: int| 0 <= i < ops.len() && #[trigger] at(ops, i) == OpV::DeleteFile(root_path(d, f));
+                    assert(del_hit(at(ops, i), p));
+                } else {
+                    let e = p[dl] as u64; let s = p[dl + 1] as u64; let f = p[dl + 2] as u64;
+                    lemma_file_at(n, d, e, s, f);
+                    lemma_prefixes(d, e, s, e, s, f);
+                    assert(o.has_entity(e) && o.has_sel(e, s));
+                    assert(ent_d(ops, o, n, d, e));
+                    if !n.has_entity(e) {
+                        let i = choose|i: int| 0 <= i < ops.len() && #[trigger] at(ops, i) == OpV::DeleteDirectory(ent_dir(d, e));
+                        assert(del_hit(at(ops, i), p));
+                    } else {
+                        assert(sel_d(ops, o, n, d, e, s));
+                        if !n.has_sel(e, s) {
+                            let i = choose|i: int| 0 <= i < ops.len() && #[trigger] at(ops, i) == OpV::DeleteDirectory(sel_dir(d, e, s));
+                            assert(del_hit(at(ops, i), p));
+                        } else {
+                            assert(file_d(ops, o, n, d, e, s, f));
+                            let i = choose|i: int| 0 <= i < ops.len() && #[trigger] at(ops, i) == OpV::DeleteFile(nested_path(d, e, s, f));
+                            assert(del_hit(at(ops, i), p));
+                        }
+                    }
+                }
             }
         }
     }
